@@ -11,9 +11,10 @@ CASE_T = "C19.Corr.case"
 PROPS = ["C19/Props.v"]
 CLAUSE = {1: "failed-op-had-effect", 2: "exception-class-changed", 3: "deciding-fault-swallowed",
           4: "handler-fault-not-contained", 5: "differs-from-twin", 6: "fault-free-differs-from-twin",
-          7: "registrations-differ-from-twin"}
+          7: "registrations-differ-from-twin", 8: "unmodelled-values-differ-from-twin"}
 CORR = {1: "outcome", 2: "state", 3: "handler-log", 4: "fired", 5: "twin-state", 6: "registrations"}
 EXNS = ["TraitError", "ValueError", "AttributeError", "RuntimeError"]
+OPAQUE = ["ObsRemove", "ObsAdd", "AddZ", "SetZ"]      # operations outside the Gallina model (law only)
 
 
 def st_term(s):
@@ -23,7 +24,7 @@ def st_term(s):
 
 def obs_term(o):
     out = C("Ok") if o["out"] == "Ok" else C("Raise", C(o["out"]))
-    return C("mkObs", out, st_term(o["st"]), [(Nat(j), a, b) for j, a, b in o["log"]], o["reg"])
+    return C("mkObs", out, st_term(o["st"]), [(Nat(j), a, b) for j, a, b in o["log"]], o["reg"], o["aux"])
 
 
 def plan_term(p):
@@ -45,8 +46,10 @@ def _in_call_order(raw, echo):
 
 def op_term(op, echo, before):
     k = op[0]
-    if k in ("SetX", "LAppend", "SAdd", "SetP", "SetY"):
+    if k in ("SetX", "LAppend", "SAdd", "SetP", "SetY", "SetXQ"):
         return C(k, op[1])
+    if k in OPAQUE:
+        return C("Opaque", Nat(OPAQUE.index(k)))
     if k in ("SetT", "DSetItem", "DSetDefault"):
         return C(k, op[1], op[2])
     if k in ("LAssign", "LExtend", "LIadd", "SUpdate"):
@@ -108,8 +111,12 @@ def nontrivial(case, obs):
 
 def ncalls(op):
     k = op[0]
-    if k in ("SetX", "LAppend", "LInsert", "SAdd", "ReadF", "ReadM", "ReadP", "SetP", "ReadC"):
+    if k in ("SetX", "LAppend", "LInsert", "SAdd", "ReadF", "ReadM", "ReadP", "SetP", "ReadC", "SetXQ"):
         return 1
+    if k in ("ObsRemove", "ObsAdd"):
+        return 24          # the user filter is called once per trait of the object (about 20)
+    if k in ("AddZ", "SetZ"):
+        return 0
     if k == "SetY":
         return 3
     if k == "ReadY":
@@ -142,9 +149,12 @@ def gen_op(rnd):
     k = rnd.choice(["SetX", "SetX", "SetT", "LAssign", "LAppend", "LExtend", "LExtend", "LIadd", "LInsert", "LSetSlice",
                     "DAssign", "DSetItem", "DUpdate", "DUpdate", "DSetDefault", "SAssign", "SAdd", "SUpdate", "SUpdate",
                     "ReadF", "ReadM", "ReadP", "SetP", "ReadC", "ReadC", "SetAd", "SetAd", "SIxor", "SIxor", "SSymDiff",
-                    "SetY", "SetY", "ReadY", "SetAd2", "SetAd2"])
-    if k in ("SetX", "LAppend", "SAdd", "SetY"):
+                    "SetY", "SetY", "ReadY", "SetAd2", "SetAd2", "SetXQ", "SetXQ", "ObsRemove", "ObsAdd", "AddZ", "AddZ",
+                    "SetZ", "SetZ"])
+    if k in ("SetX", "LAppend", "SAdd", "SetY", "SetXQ"):
         return [k, item()]
+    if k == "SetZ":
+        return [k, rnd.randint(0, 3), rnd.randint(0, 9)]
     if k in ("SIxor", "SSymDiff"):
         return [k, sorted(set(items(0, 5)))]
     if k == "SetAd2":
@@ -173,13 +183,17 @@ def gen_op(rnd):
 
 
 def gen_plan(rnd, op):
+    if op[0] in ("AddZ", "SetZ"):
+        # the user filter runs inside the trait_added notification there (handler context, exceptions contained):
+        # only handler faults are injected into these operations
+        return None if rnd.random() < 0.7 else ["handler", 6, rnd.choice(EXNS)]
     r = rnd.random()
     if r < 0.35:
         return None
     if r < 0.8:
         n = ncalls(op)
         return ["call", rnd.randint(0, max(n, 1)) if rnd.random() < 0.85 else rnd.randint(0, n + 2), rnd.choice(EXNS)]
-    return ["handler", rnd.randint(0, 4), rnd.choice(EXNS)]
+    return ["handler", rnd.randint(0, 7), rnd.choice(EXNS)]
 
 
 def gen_case(rnd, ctx, maxlen):
@@ -201,10 +215,11 @@ TEMPLATES = [["SetX", 5], ["SetX", 1], ["SetX", 101], ["SetT", 3, 4], ["SetT", 3
              ["SAssign", [1, 2, 3]], ["SAdd", 4], ["SUpdate", [1, 2, 3]], ["ReadF"], ["ReadM"], ["ReadP"], ["SetP", 4],
              ["ReadC"], ["SetAd", 0, 3], ["SetAd", 1, 3], ["SetAd", 2, 3],
              ["SIxor", [1, 2, 3]], ["SIxor", [1, 5, 100]], ["SSymDiff", [1, 4, 6]], ["SetY", 5], ["SetY", 43], ["SetY", 100],
-             ["ReadY"], ["SetAd2", 0, 3], ["SetAd2", 1, 3], ["SetAd2", 2, 3], ["SetAd2", None, 3]]
+             ["ReadY"], ["SetAd2", 0, 3], ["SetAd2", 1, 3], ["SetAd2", 2, 3], ["SetAd2", None, 3],
+             ["SetXQ", 5], ["SetXQ", 100], ["ObsRemove"], ["ObsAdd"]]
 FOLLOW = [["SetX", 6], ["LExtend", [1, 2]], ["DUpdate", [[2, 2]]], ["SUpdate", [5]], ["ReadF"], ["ReadM"], ["ReadC"],
           ["SetP", 8], ["ReadP"], ["SetAd", 2, 4], ["LSetSlice", 0, 2, [3]], ["SIxor", [1, 8]], ["SetY", 7], ["ReadY"],
-          ["SetAd2", 1, 5]]
+          ["SetAd2", 1, 5], ["SetX", 3], ["AddZ"], ["SetZ", 0, 4], ["ObsRemove"], ["AddZ"], ["SetZ", 1, 6], ["SetZ", 0, 2]]
 
 
 def systematic():
@@ -212,10 +227,12 @@ def systematic():
     and every handler x every exception class, each followed by the follow-up operations without fault."""
     cs = []
     for tpl in TEMPLATES:
-        for k in range(ncalls(tpl) + 1):
+        n = ncalls(tpl)
+        ks = range(n + 1) if n <= 8 else [0, 1, 2, 5, 11, 17, 21, 22, 23, n]
+        for k in ks:
             for e in EXNS:
                 cs.append(dict(ops=[[tpl, ["call", k, e]]] + [[f, None] for f in FOLLOW]))
-        for j in range(5):
+        for j in range(8):
             for e in EXNS:
                 cs.append(dict(ops=[[tpl, ["handler", j, e]]] + [[f, None] for f in FOLLOW]))
     return cs
